@@ -5,7 +5,8 @@ CFG = dict(
                "slots, concurrentGrab and grabSourcesAndBases are independent of the completion order (Leibniz equality, no assumption on "
                "combineProfiles); chunkedGrab = one combine over all successes (profile up to 'same report', count and save exactly); one "
                "error line per failed source in command-line order; fails iff no source / no requested base was obtained; the result depends "
-               "on the successes only (not on which other sources fail, where they sit relative to the 128 boundary, or the chunk size). "
+               "on the successes only (not on which other sources fail, where they sit relative to the 128 boundary, or the chunk size); what a "
+               "request gets from the run's shared HTTP transport is independent of the requests before it and of their order. "
                "The merge-dependent theorems assume three named laws of combineProfiles (equivalence, properness in the accumulator, "
                "combine [combine A; combine B] ~ combine (A ++ B)); they are PROVED for the toy profile instance the runner executes, and "
                "the boolean spec checker is proved sound w.r.t. the declarative spec. Model tied to the code by ~3.5k differential cases "
@@ -17,7 +18,9 @@ CFG = dict(
          "file, HTTP) and a toy profile (sample type, distinct comment, keyed int64 samples). Streams: exhaustive m<=4 (thorough 5): all splits x m! "
          "orders x 2^m failure subsets; m=5 (6) sampled; random kinds/values incl. shared, cancelling, zero, wrap-around values and incompatible types; "
          "sizes 127..300 (thorough ..513) x 12 failure patterns aimed at the chunk switch (whole chunks failing, single success at 0/127/128/last, ...); "
-         "incompatible success at the boundary; the same through fetchProfiles. distinct = sha256 of the input term; non-trivial = >= 2 sources "
+         "incompatible success at the boundary; the same through fetchProfiles; stream transport: sources fetched through the run's REAL internal/transport "
+         "object (http / https / https+insecure against local plain, -tls_ca-trusted and untrusted TLS servers): all kind pairs x both arrival orders, "
+         "sampled triples x 6 orders, mixes with the other kinds. distinct = sha256 of the input term; non-trivial = >= 2 sources "
          "with at least one failing and one succeeding",
     spec_what="status / merged profile (sample type, contributors in order, weight per key) / per-source error lines differ from what the C16 "
               "statement demands for these source lists and outcomes",
@@ -25,7 +28,8 @@ CFG = dict(
                   "Go sync.WaitGroup happens-before / memory model: goroutine = one atomic slot write, barrier = every index occurs in the order",
                   "completion order is enforced best-effort by gates on the Fetcher (a fetch's return, not its slot write, is sequenced)",
                   "export shims harness/overlay/internal/driver/zz_verif_c16.go (build the profileSource lists like fetchProfiles does)"],
-    assumptions=["combine_laws (P_C16.v): eqv equivalence, combine_pair_proper, combine_flat -- to be discharged by the C03/C07 merge model",
+    assumptions=["transport model (tr_round_trip): TLS policy per request, -tls_cert/-tls_key and the initErr path not exercised; rq_trusted is an oracle",
+                 "combine_laws (P_C16.v): eqv equivalence, combine_pair_proper, combine_flat -- to be discharged by the C03/C07 merge model",
                  "mergeable: the fetched profiles can be combined at all (premise of the statement)",
                  "stderr of the source group and of the base group are compared per group (their interleaving is scheduler-dependent)"],
     shard=200,
